@@ -189,3 +189,88 @@ fn c06_byte_separator() {
     kani::cover!(want && buf[0] == b'.');
     kani::cover!(!want && len == 1);
 }
+
+// ---------------------------------------------------------------------------
+// Rules applied on top of the integer lexer. `<i64 as Lex>::lex` (digit text ->
+// value; symbolic digit text is out of CBMC's reach) is replaced by a stub that
+// consumes one character and returns an arbitrary i64, so the REAL
+// `IntRange::lex` and `FieldIndex::lex` run on every pair of bound values /
+// every index value.
+// ---------------------------------------------------------------------------
+
+static mut INT_SEQ: [i64; 2] = [0; 2];
+static mut INT_CALLS: usize = 0;
+
+fn int_lex_stub(input: &str) -> LexResult<'_, i64> {
+    unsafe {
+        let v = INT_SEQ[INT_CALLS & 1];
+        INT_CALLS += 1;
+        Ok((v, &input[1..]))
+    }
+}
+
+/// `a..b`: accepted exactly when a <= b, denoting a..=b; a single value is v..=v.
+#[kani::proof]
+#[kani::unwind(5)]
+#[kani::stub(<i64 as crate::lex::Lex>::lex, int_lex_stub)]
+fn c06_int_range_rule() {
+    use crate::rhs_types::IntRange;
+    let a: i64 = kani::any();
+    let b: i64 = kani::any();
+    let single: bool = kani::any();
+    unsafe {
+        INT_SEQ = [a, b];
+        INT_CALLS = 0;
+    }
+    let text = if single { "1;" } else { "1..2;" };
+    let res = IntRange::lex(text);
+    match &res {
+        Ok((r, rest)) => {
+            let r: std::ops::RangeInclusive<i64> = r.into();
+            if single {
+                assert!(*r.start() == a && *r.end() == a, "a single value must denote the one-value range");
+            } else {
+                assert!(a <= b, "reversed integer range accepted");
+                assert!(*r.start() == a && *r.end() == b, "range bounds differ from the literal's bounds");
+            }
+            assert!(rest.len() == 1, "range literal consumed a different number of characters");
+        }
+        Err((kind, _)) => {
+            assert!(!single && a > b, "ordered integer range rejected");
+            assert!(matches!(kind, LexErrorKind::IncompatibleRangeBounds));
+        }
+    }
+    kani::cover!(res.is_ok() && !single && a == i64::MIN && b == i64::MAX);
+    kani::cover!(res.is_err() && a == i64::MAX && b == i64::MIN);
+    kani::cover!(res.is_ok() && !single && a == b);
+    kani::cover!(res.is_ok() && single);
+    std::mem::forget(res);
+}
+
+/// `[n]`: an array index is accepted exactly when 0 <= n <= 2^32-1 and denotes n.
+#[kani::proof]
+#[kani::unwind(5)]
+#[kani::stub(<i64 as crate::lex::Lex>::lex, int_lex_stub)]
+fn c06_index_literal_rule() {
+    use crate::scheme::FieldIndex;
+    let n: i64 = kani::any();
+    unsafe {
+        INT_SEQ = [n, n];
+        INT_CALLS = 0;
+    }
+    let res = FieldIndex::lex("7]");
+    match &res {
+        Ok((FieldIndex::ArrayIndex(u), rest)) => {
+            assert!(n >= 0 && n <= u32::MAX as i64, "negative or oversized index accepted");
+            assert!(*u as i64 == n, "index denotes a different number");
+            assert!(rest.len() == 1);
+        }
+        Ok(_) => assert!(false, "an integer index must become an array index"),
+        Err(_) => assert!(n < 0 || n > u32::MAX as i64, "index within 0..2^32-1 rejected"),
+    }
+    kani::cover!(res.is_ok() && n == u32::MAX as i64);
+    kani::cover!(res.is_err() && n == u32::MAX as i64 + 1);
+    kani::cover!(res.is_err() && n == -1);
+    kani::cover!(res.is_ok() && n == 0);
+    std::mem::forget(res);
+}
